@@ -5,7 +5,7 @@ use crate::builtins::{
     TZ_PROVIDER,
 };
 use crate::sys;
-use crate::{time::EpochNanoseconds, TemporalError, TemporalResult, TimeZone};
+use crate::{time::EpochNanoseconds, TemporalResult, TimeZone};
 
 impl Now {
     /// Returns the current system time as a [`PlainDateTime`] with an optional
@@ -15,7 +15,8 @@ impl Now {
     pub fn plain_datetime_iso(timezone: Option<TimeZone>) -> TemporalResult<PlainDateTime> {
         let provider = TZ_PROVIDER
             .lock()
-            .map_err(|_| TemporalError::general("Unable to acquire lock"))?;
+            // NOTE: A panic in an earlier call poisons the lock; the provider is still usable.
+            .unwrap_or_else(std::sync::PoisonError::into_inner);
         let timezone = timezone.unwrap_or(TimeZone::IanaIdentifier(sys::get_system_timezone()?));
         let system_nanos = sys::get_system_nanoseconds()?;
         let epoch_nanos = EpochNanoseconds::try_from(system_nanos)?;
@@ -29,7 +30,8 @@ impl Now {
     pub fn plain_date_iso(timezone: Option<TimeZone>) -> TemporalResult<PlainDate> {
         let provider = TZ_PROVIDER
             .lock()
-            .map_err(|_| TemporalError::general("Unable to acquire lock"))?;
+            // NOTE: A panic in an earlier call poisons the lock; the provider is still usable.
+            .unwrap_or_else(std::sync::PoisonError::into_inner);
         let timezone = timezone.unwrap_or(TimeZone::IanaIdentifier(sys::get_system_timezone()?));
         let system_nanos = sys::get_system_nanoseconds()?;
         let epoch_nanos = EpochNanoseconds::try_from(system_nanos)?;
@@ -43,7 +45,8 @@ impl Now {
     pub fn plain_time_iso(timezone: Option<TimeZone>) -> TemporalResult<PlainTime> {
         let provider = TZ_PROVIDER
             .lock()
-            .map_err(|_| TemporalError::general("Unable to acquire lock"))?;
+            // NOTE: A panic in an earlier call poisons the lock; the provider is still usable.
+            .unwrap_or_else(std::sync::PoisonError::into_inner);
         let timezone = timezone.unwrap_or(TimeZone::IanaIdentifier(sys::get_system_timezone()?));
         let system_nanos = sys::get_system_nanoseconds()?;
         let epoch_nanos = EpochNanoseconds::try_from(system_nanos)?;
